@@ -134,8 +134,8 @@ impl GenCfg {
             (K::ObsPrint, 0),
             (K::Drain, 0),
             (K::ObsPar, 0),
-            (K::SaveSpare, 0),
-            (K::CloneFrom, 0),
+            (K::SaveSpare, 1),
+            (K::CloneFrom, 1),
             (K::ObsCapacity, 0),
             (K::StaleInsert, 0),
         ];
@@ -276,6 +276,7 @@ impl GenCfg {
                 set(&mut w, K::SaveSpare, 1);
                 set(&mut w, K::CloneFrom, 1);
                 set(&mut w, K::ObsCapacity, 1);
+                p_sink_fail = 10;
                 if prop == "C17" {
                     set(&mut w, K::StaleInsert, 1);
                 }
@@ -580,7 +581,7 @@ impl Gen {
                 via: rng.below(3) as u8,
             },
             K::Reserve => Op::Reserve {
-                n: *rng.pick(&[0u32, 1, 2, 5, 17, 100]),
+                n: *rng.pick(&[0u32, 1, 2, 5, 17, 100, 1_000_000, 1_000_001, 1_000_002, 1_000_001, u32::MAX]),
             },
             K::CycleSlot => {
                 let x = self.pick_node(rng, m, false).unwrap();
